@@ -24,6 +24,11 @@ def generate(rng, tier, rep):
         if rng.random() < 0.5:
             opts.append(rng.choice(['-v', '-vv']))
         c = worldcase.gen_world(rng, opts=opts)
+        for T in c['tests']:
+            if rng.random() < 0.12 and not T.get('deco_skip'):
+                # a test (or a library it uses) writes a line that ends in three numbers to the process's stderr: in a layer
+                # subprocess that is the report channel, and the line is no header
+                T['writes'] = {'body': [['fd2', rng.choice(['progress: 4 0 0\n', 'pool 12 1 0 \n', 'x=1 2 3\n'])]]}
         # make "its tests ran" observable for layers with decorator-skipped tests
         for T in list(c['tests']):
             if T.get('deco_skip') and not any(not U.get('deco_skip') and U['layer'] == T['layer'] for U in c['tests']):
